@@ -1,13 +1,16 @@
 (* C19 Pack/Unpack failures are typed and attributed to the right field.
    Proved: every Unpack failure of the message model carries a non-empty field-id path whose head is the element at
    which the loop stopped (0 = MTI, 1 = bitmap, otherwise an element the bitmap announces, never one before the loop
-   position); a failing MTI or bitmap is reported as 0 / 1. The truncation theorem (cutting a valid message inside
-   element k is reported against k - it needs prefix-intolerance of every field codec) is checked by the oracle on
-   every truncation offset of generated messages and not yet proved (C19_truncate_statement); that the path continues
+   position); a failing MTI or bitmap is reported as 0 / 1. The truncation theorem: any field (primitive or composite of any
+   mode and depth) cut strictly inside its packed bytes is rejected and reports the failure as its own
+   (C19_field_truncated), and a packed message cut at any offset is reported against exactly the element - MTI,
+   bitmap or data element - that owns the byte at that offset (C19_message_truncated), for every coherent
+   specification and every message of the domain, with auto-expanding and fixed bitmaps alike; that the path continues
    with subfield tags inside composites, following the specification at every depth, is C19_nested_path. Typing (PackError /
    UnpackError, raw message) is glue outside the model and checked by the oracle on the library. *)
 From Iso Require Import Model.Base Model.Padding Model.Encoding Model.Prefix Model.Bitmap Model.Spec Model.Field Model.Message
-     Proofs.BaseLemmas Proofs.MessageProofs Proofs.CompositeProofs Proofs.PathProofs.
+     Proofs.BaseLemmas Proofs.FieldProofs Proofs.MessageProofs Proofs.CompositeProofs Proofs.PathProofs Proofs.MessageRoundtrip Proofs.CoherenceCheck Proofs.TruncationProofs.
+From Coq Require Import Lia.
 
 Theorem C19_error_has_owner : forall S m src m' path e, m_unpack S m src = (m', UErr path e) ->
   exists k rest, path = itoa k :: rest /\ 0 <= k.
@@ -38,3 +41,45 @@ Proof. split; [eexists; vm_compute; reflexivity|]. split; vm_compute; reflexivit
 Theorem C19_nested_path : forall s st d st' path e, unpack_f s st d = (st', UErr path e) -> path_ok s path.
 Proof. exact unpack_path_ok. Qed.
 Print Assumptions C19_nested_path.
+
+(* ---- truncation ---- *)
+(* a field cut strictly inside its packed bytes does not unpack; the failure is its own (empty path below it) and
+   the object it was unpacked into is left as it was *)
+Theorem C19_field_truncated : forall s st b o st0, coherent s -> in_dom s st -> pack_f s st = Ok b -> 0 <= o < zlen b -> shaped s st0 ->
+  exists e, unpack_f s st0 (ztake o b) = (st0, UErr [] e).
+Proof. exact field_truncated. Qed.
+Print Assumptions C19_field_truncated.
+
+(* a packed message cut at offset o is reported against the element k that owns byte o: b = pre ++ part ++ post with
+   o inside part, where part is the packed MTI (k = 0, nothing before it), the packed bitmap (k = 1, the MTI before
+   it) or the packed data element k (which is populated) *)
+Theorem C19_message_truncated : forall S m m' b, msg_coherent S -> msg_in_dom S m -> m_pack S m = (m', Ok b) ->
+  forall m0 o, msg_shaped S m0 -> 0 <= o < zlen b ->
+    exists k e, snd (m_unpack S m0 (ztake o b)) = UErr [itoa k] e /\
+      exists pre part post, b = pre ++ part ++ post /\ zlen pre <= o < zlen pre + zlen part /\
+        (if k =? 0 then pre = [] /\ pack_f (FPrim (ms_mti S)) (m_mti m') = Ok part
+         else if k =? 1 then pack_f (FPrim (ms_mti S)) (m_mti m') = Ok pre /\ bm_pack (ms_bm S) (m_bm m') = Ok part
+         else zmem k (m_present m') = true /\ exists s st, zlookup k (ms_fields S) = Some s /\ zlookup k (m_fields m') = Some st /\ pack_f s st = Ok part).
+Proof. exact message_truncated. Qed.
+Print Assumptions C19_message_truncated.
+
+(* the hypotheses are satisfiable: ms_ex is coherent, a message with elements 2 and 3 is in the domain and packs, and
+   the fresh message is shaped *)
+Definition m_ex : mstate :=
+  {| m_mti := SString [x30; x31; x30; x30]; m_fields := [(2, SString [x61; x62; x63; x64]); (3, SNumeric 7)];
+     m_present := [0; 2; 3]; m_bm := []; m_bmcached := false; m_failed := [] |}.
+Example C19_ex_hyps : msg_coherent ms_ex /\ msg_in_dom ms_ex m_ex /\ msg_shaped ms_ex (mfresh ms_ex) /\
+  snd (m_pack ms_ex m_ex) = Ok [x30; x31; x30; x30; x60; x00; x00; x00; x00; x00; x00; x00; x30; x34; x61; x62; x63; x64; x30; x30; x30; x30; x30; x37].
+Proof.
+  split; [apply msg_coherentb_sound; vm_compute; reflexivity|]. split; [|split; [|vm_compute; reflexivity]].
+  - split; [repeat constructor; cbn; intuition discriminate|]. split; [reflexivity|]. split.
+    + apply prim_in_domain_of_strict. split; [exact I|]. exists [x30; x31; x30; x30]. repeat split; vm_compute; congruence.
+    + intros id H. apply zmem_In in H. cbn [m_ex m_present In] in H. destruct H as [<-|[<-|[<-|[]]]]; [left; reflexivity|right; right|right; right].
+      * split; [lia|]. split; [reflexivity|]. eexists _, _. split; [reflexivity|]. split; [reflexivity|].
+        apply prim_in_domain_of_strict. split; [exact I|]. exists [x61; x62; x63; x64]. repeat split; vm_compute; congruence.
+      * split; [lia|]. split; [reflexivity|]. eexists _, _. split; [reflexivity|]. split; [reflexivity|].
+        apply prim_in_domain_of_strict. split; [change (0 <= 7 <= max_int); unfold max_int; lia|]. exists (itoa 7). repeat split; vm_compute; congruence.
+  - intros id s H. cbn [ms_ex ms_fields zlookup] in H.
+    destruct (id =? 2) eqn:E2; [injection H as <-; assert (id = 2) by lia; subst; eexists; split; [reflexivity|exact I]|].
+    destruct (id =? 3) eqn:E3; [injection H as <-; assert (id = 3) by lia; subst; eexists; split; [reflexivity|exact I]|]. discriminate.
+Qed.
